@@ -315,6 +315,8 @@ func (g *Subgraph) Type(name string) *SubType {
 type Config struct {
 	Super     *Schema
 	Subgraphs []*Subgraph
+	// Lookups: "Type.field" -> key lookup resolver of that field (universe generator input)
+	Lookups map[string]Lookup
 }
 
 func (c *Config) Subgraph(name string) *Subgraph {
